@@ -132,6 +132,15 @@ def sympy_to_python_fn(
         sympy.im, lambda _: sympy.Float(0.0)
     )
 
+    # Sympy prints sech, csch and coth by rewriting the whole expression in terms of
+    # exp, which also turns x**2 inside their argument into exp(2*log(x)): a math
+    # domain error for negative x. Print them through cosh and sinh instead
+    expr = (
+        expr.replace(sympy.sech, lambda arg: 1 / sympy.cosh(arg))
+        .replace(sympy.csch, lambda arg: 1 / sympy.sinh(arg))
+        .replace(sympy.coth, lambda arg: sympy.cosh(arg) / sympy.sinh(arg))
+    )
+
     return f"""def {fn_name}({fn_args}) -> float:
     return {pycode(expr, fully_qualified_modules=True, full_prec=False)}
     """.replace("math.factorial", "scipy.special.factorial")
